@@ -1,124 +1,18 @@
 // C10 — MD5 / SHA-1 / SHA-256 / CRC-32 / FNV-1a equal their published definitions and chain.
 //
-// E-ENUM.  Inputs: every length in a range x 4 fill patterns (00, FF, counter, LCG) plus
-// block-boundary sizes up to 1 MiB + 1.  Oracle: OpenSSL EVP (MD5, SHA-1, SHA-256) and zlib crc32
+// E-ENUM.  Inputs: every length in a range x 6 fill patterns (00, FF, counter, LCG, all-high-bit, ASCII) plus
+// block-boundary sizes up to 1 MiB + 1.  Round-2 sections (call histories, seeds, contexts, storage, huge inputs)
+// live in C10_r2.cc; shared helpers in C10_common.hh.  Oracle: OpenSSL EVP (MD5, SHA-1, SHA-256) and zlib crc32
 // linked into the harness as independent implementations; FNV-1a by the published recurrence.
 // Every input is an exact-size heap copy (ASan red zone directly behind the last byte).
 // The sections also write (function, length, pattern, reference, observed) lines into VF_OUTDIR;
 // oracles/C10.py re-derives the references with Python hashlib / zlib on independently
 // regenerated inputs.
-#include <openssl/evp.h>
-#include <string.h>
-#include <zlib.h>
+#include "C10_common.hh"
 
-#include <memory>
-#include <string>
-#include <vector>
-
-#include "Hash.hh"
-#include "vf.hh"
+using namespace c10;
 
 namespace {
-
-enum Pattern { P_ZERO, P_FF, P_COUNTER, P_LCG, NPAT };
-const char* pat_name[NPAT] = {"zero", "ff", "counter", "lcg"};
-
-// Exact-size heap buffer (no terminator, no slack).
-struct Buf {
-  uint8_t* p;
-  size_t n;
-  Buf(size_t len, int pat) : p(static_cast<uint8_t*>(malloc(len))), n(len) {  // malloc(0): valid pointer, zero accessible bytes
-    if (!p) {
-      fprintf(stderr, "C10: malloc failed\n");
-      _exit(3);
-    }
-    uint32_t x = 0x12345678u + static_cast<uint32_t>(len);
-    for (size_t i = 0; i < len; i++) {
-      switch (pat) {
-        case P_ZERO: p[i] = 0x00; break;
-        case P_FF: p[i] = 0xFF; break;
-        case P_COUNTER: p[i] = static_cast<uint8_t>(i & 0xFF); break;
-        default:
-          x = x * 1103515245u + 12345u;
-          p[i] = static_cast<uint8_t>((x >> 16) & 0xFF);
-          break;
-      }
-    }
-  }
-  Buf(const Buf&) = delete;
-  ~Buf() { free(p); }
-};
-
-std::string hex_lower(const std::string& b) {
-  static const char* d = "0123456789abcdef";
-  std::string s;
-  for (unsigned char c : b) {
-    s += d[c >> 4];
-    s += d[c & 15];
-  }
-  return s;
-}
-std::string to_lower(std::string s) {
-  for (auto& c : s)
-    if (c >= 'A' && c <= 'Z') c = static_cast<char>(c - 'A' + 'a');
-  return s;
-}
-
-std::string evp(const EVP_MD* md, const void* data, size_t n) {
-  EVP_MD_CTX* ctx = EVP_MD_CTX_new();
-  unsigned char out[EVP_MAX_MD_SIZE];
-  unsigned int outl = 0;
-  if (!ctx || EVP_DigestInit_ex(ctx, md, nullptr) != 1 || EVP_DigestUpdate(ctx, data, n) != 1 || EVP_DigestFinal_ex(ctx, out, &outl) != 1) {
-    fprintf(stderr, "C10: OpenSSL EVP digest failed\n");
-    _exit(3);
-  }
-  EVP_MD_CTX_free(ctx);
-  return std::string(reinterpret_cast<char*>(out), outl);
-}
-
-uint32_t ref_crc32(const void* data, size_t n, uint32_t seed = 0) {
-  // zlib takes uInt lengths; feed in chunks
-  const Bytef* p = static_cast<const Bytef*>(data);
-  uLong c = seed;
-  while (n) {
-    uInt k = n > 0x40000000u ? 0x40000000u : static_cast<uInt>(n);
-    c = ::crc32(c, p, k);
-    p += k;
-    n -= k;
-  }
-  return static_cast<uint32_t>(c);
-}
-// FNV-1a, published recurrence: hash = offset_basis; for each octet: hash ^= octet; hash *= prime.
-uint32_t ref_fnv32(const uint8_t* p, size_t n) {
-  uint32_t h = 2166136261u;
-  for (size_t i = 0; i < n; i++) {
-    h ^= p[i];
-    h *= 16777619u;
-  }
-  return h;
-}
-uint64_t ref_fnv64(const uint8_t* p, size_t n) {
-  uint64_t h = 14695981039346656037ull;
-  for (size_t i = 0; i < n; i++) {
-    h ^= p[i];
-    h *= 1099511628211ull;
-  }
-  return h;
-}
-
-std::string le32(uint32_t v) {
-  std::string s(4, 0);
-  for (int i = 0; i < 4; i++) s[i] = static_cast<char>((v >> (8 * i)) & 0xFF);
-  return s;
-}
-std::string be32(uint32_t v) {
-  std::string s(4, 0);
-  for (int i = 0; i < 4; i++) s[i] = static_cast<char>((v >> (8 * (3 - i))) & 0xFF);
-  return s;
-}
-
-enum Fn { F_MD5, F_SHA1, F_SHA256, F_CRC32, F_FNV32, F_FNV64, NFN };
-const char* fn_name[NFN] = {"MD5", "SHA1", "SHA256", "crc32", "fnv1a32", "fnv1a64"};
 
 struct Out {
   FILE* f = nullptr;
@@ -136,33 +30,53 @@ struct Out {
   }
 };
 
-// A digest struct's result three ways: from its public state words, bin(), hex().
+// A digest struct's result: public state words, bin(), hex() of the (ptr,size) constructor; the same three of the
+// std::string constructor; the implicit conversion from std::string (copy-initialisation); a copy of the object;
+// renderings asked a second time in the opposite order.
 template <class D>
-void check_digest(vf::Run& r, Out& out, int fn, const Buf& b, int pat, const EVP_MD* md, size_t digest_len,
-    const std::function<std::string(const D&)>& state_bytes) {
-  const char* name = fn_name[fn];
-  std::string ref = evp(md, b.p, b.n);
+void check_digest(vf::Run& r, Out& out, int fn, const Buf& b, int pat) {
+  const std::string name = fn_name[fn];
+  const std::string ref = ref_value(fn, b.p, b.n);
   r.xchecked++;
+  auto where = [&] { return vf::fmt("%s of %zu bytes (%s fill)", name.c_str(), b.n, pat_name[pat]); };
+  r.poison_errno();
   D d(b.p, b.n);
-  std::string st = state_bytes(d);
-  std::string bin = d.bin();
-  std::string hex = d.hex();
-  // std::string overload on the same bytes
-  std::string as_string(reinterpret_cast<const char*>(b.p), b.n);
-  D d2(as_string);
-  std::string bin2 = d2.bin();
-  out.line(name, b.n, pat, hex_lower(ref), hex_lower(bin));
+  Obs o = observe(d);
+  out.line(name.c_str(), b.n, pat, hex_lower(ref), hex_lower(o.bin));
   r.nontriv();
-  auto where = [&] { return vf::fmt("%s of %zu bytes (%s fill)", name, b.n, pat_name[pat]); };
-  if (ref.size() != digest_len) {
-    fprintf(stderr, "C10: reference digest has unexpected size\n");
-    _exit(3);
+  bool good = judge(r, fn, OV_PTR, o, ref, where);
+  // std::string overload on the same bytes: explicit construction and implicit conversion
+  const std::string as_string = b.str();
+  r.poison_errno();
+  D d2(as_string);
+  Obs o2 = observe(d2);
+  good = judge(r, fn, OV_STR, o2, ref, [&] { return where() + ", constructor from std::string"; }) && good;
+  D d3 = as_string;
+  Obs o3 = observe(d3);
+  if (!(o3 == o2)) {
+    good = false;
+    r.fail(name + ":string-overload", [&] { return where() + ": copy-initialisation from std::string gives " + hex_lower(o3.state) + " / bin " + hex_lower(o3.bin) + " / hex " + o3.hex + ", direct construction " + hex_lower(o2.state); });
   }
-  if (st != ref) r.fail(std::string(name) + ":wrong-digest", [&] { return where() + ": state words give " + hex_lower(st) + ", OpenSSL gives " + hex_lower(ref); });
-  else if (bin != ref) r.fail(std::string(name) + ":bin-render", [&] { return where() + ": bin() = " + hex_lower(bin) + " (" + std::to_string(bin.size()) + " bytes), digest is " + hex_lower(ref); });
-  else if (hex.size() != 2 * digest_len || to_lower(hex) != hex_lower(ref)) r.fail(std::string(name) + ":hex-render", [&] { return where() + ": hex() = " + vf::show(hex) + ", digest is " + hex_lower(ref); });
-  else if (bin2 != ref) r.fail(std::string(name) + ":string-overload", [&] { return where() + ": " + name + "(std::string).bin() = " + hex_lower(bin2) + ", digest is " + hex_lower(ref); });
-  else r.ok(std::string(name) + ":equals-reference(state,bin,hex,string-overload)");
+  // a copy renders the same; asking the first object again (hex first this time) gives the same answers
+  D c(d);
+  Obs oc = observe(c);
+  Obs again;
+  again.hex = d.hex();
+  again.bin = d.bin();
+  again.state = words(d);
+  if (!(oc == o) || !(again == o)) {
+    good = false;
+    r.fail(name + ":render-unstable", [&] { return where() + ": first rendering " + hex_lower(o.bin) + " / " + o.hex + ", copy renders " + hex_lower(oc.bin) + " / " + oc.hex + ", second rendering of the same object " + hex_lower(again.bin) + " / " + again.hex; });
+  }
+  if (good) {
+    // vacuity guard for the hex format: digests with a word that starts with a zero nibble exercise the zero padding
+    for (size_t w = 0; w < ref.size(); w += 4)
+      if ((static_cast<unsigned char>(ref[w]) >> 4) == 0) {
+        r.counters["digests_with_a_leading_zero_nibble_word"]++;
+        break;
+      }
+    r.ok(name + ":equals-reference(state,bin,hex; ptr, string, implicit-string, copy, re-render)");
+  }
 }
 
 void check_one(vf::Run& r, Out& out, int fn, size_t len, int pat) {
@@ -170,73 +84,66 @@ void check_one(vf::Run& r, Out& out, int fn, size_t len, int pat) {
   r.note(fn_name[fn]);
   if (r.wants_desc()) r.desc(vf::fmt("%s on %zu bytes, %s fill", fn_name[fn], len, pat_name[pat]));
   switch (fn) {
-    case F_MD5:
-      check_digest<phosg::MD5>(r, out, fn, b, pat, EVP_md5(), 16, [](const phosg::MD5& d) { return le32(d.a0) + le32(d.b0) + le32(d.c0) + le32(d.d0); });
-      break;
-    case F_SHA1:
-      check_digest<phosg::SHA1>(r, out, fn, b, pat, EVP_sha1(), 20, [](const phosg::SHA1& d) {
-        std::string s;
-        for (int i = 0; i < 5; i++) s += be32(d.h[i]);
-        return s;
-      });
-      break;
-    case F_SHA256:
-      check_digest<phosg::SHA256>(r, out, fn, b, pat, EVP_sha256(), 32, [](const phosg::SHA256& d) {
-        std::string s;
-        for (int i = 0; i < 8; i++) s += be32(d.h[i]);
-        return s;
-      });
-      break;
+    case F_MD5: check_digest<phosg::MD5>(r, out, fn, b, pat); break;
+    case F_SHA1: check_digest<phosg::SHA1>(r, out, fn, b, pat); break;
+    case F_SHA256: check_digest<phosg::SHA256>(r, out, fn, b, pat); break;
     case F_CRC32: {
       uint32_t ref = ref_crc32(b.p, b.n);
       r.xchecked++;
+      r.poison_errno();
       uint32_t got = phosg::crc32(b.p, b.n);
       uint32_t got0 = phosg::crc32(b.p, b.n, 0);
       out.line("crc32", len, pat, vf::fmt("%08x", ref), vf::fmt("%08x", got));
       r.nontriv();
       if (got != ref || got0 != ref) r.fail("crc32:wrong-value", [&] { return vf::fmt("crc32 of %zu bytes (%s fill) = %08X (explicit seed 0: %08X), zlib gives %08X", len, pat_name[pat], got, got0, ref); });
-      else r.ok("crc32:equals-zlib");
+      else r.ok("crc32:equals-zlib(default and explicit 0 seed)");
       break;
     }
     case F_FNV32: {
       uint32_t ref = ref_fnv32(b.p, b.n);
+      r.poison_errno();
       uint32_t got = phosg::fnv1a32(b.p, b.n);
-      std::string as_string(reinterpret_cast<const char*>(b.p), b.n);
+      uint32_t got_e = phosg::fnv1a32(b.p, b.n, phosg::FNV1A32_START);
+      std::string as_string = b.str();
       uint32_t got_s = phosg::fnv1a32(as_string);
+      uint32_t got_se = phosg::fnv1a32(as_string, phosg::FNV1A32_START);
       out.line("fnv1a32", len, pat, vf::fmt("%08x", ref), vf::fmt("%08x", got));
       r.nontriv();
-      if (got != ref) r.fail("fnv1a32:wrong-value", [&] { return vf::fmt("fnv1a32 of %zu bytes (%s fill) = %08X, recurrence gives %08X", len, pat_name[pat], got, ref); });
-      else if (got_s != ref) r.fail("fnv1a32:string-overload", [&] { return vf::fmt("fnv1a32(std::string of %zu bytes, %s fill) = %08X, recurrence gives %08X", len, pat_name[pat], got_s, ref); });
-      else r.ok("fnv1a32:equals-recurrence");
+      if (got != ref || got_e != ref) r.fail("fnv1a32:wrong-value", [&] { return vf::fmt("fnv1a32 of %zu bytes (%s fill) = %08X (explicit FNV1A32_START: %08X), recurrence gives %08X", len, pat_name[pat], got, got_e, ref); });
+      else if (got_s != ref || got_se != ref) r.fail("fnv1a32:string-overload", [&] { return vf::fmt("fnv1a32(std::string of %zu bytes, %s fill) = %08X (explicit FNV1A32_START: %08X), recurrence gives %08X", len, pat_name[pat], got_s, got_se, ref); });
+      else r.ok("fnv1a32:equals-recurrence(ptr, string; default and explicit start)");
       break;
     }
     default: {
       uint64_t ref = ref_fnv64(b.p, b.n);
+      r.poison_errno();
       uint64_t got = phosg::fnv1a64(b.p, b.n);
-      std::string as_string(reinterpret_cast<const char*>(b.p), b.n);
+      uint64_t got_e = phosg::fnv1a64(b.p, b.n, phosg::FNV1A64_START);
+      std::string as_string = b.str();
       uint64_t got_s = phosg::fnv1a64(as_string);
+      uint64_t got_se = phosg::fnv1a64(as_string, phosg::FNV1A64_START);
       out.line("fnv1a64", len, pat, vf::fmt("%016llx", (unsigned long long)ref), vf::fmt("%016llx", (unsigned long long)got));
       r.nontriv();
-      if (got != ref) r.fail("fnv1a64:wrong-value", [&] { return vf::fmt("fnv1a64 of %zu bytes (%s fill) = %016llX, recurrence gives %016llX", len, pat_name[pat], (unsigned long long)got, (unsigned long long)ref); });
-      else if (got_s != ref) r.fail("fnv1a64:string-overload", [&] { return vf::fmt("fnv1a64(std::string of %zu bytes, %s fill) = %016llX, recurrence gives %016llX", len, pat_name[pat], (unsigned long long)got_s, (unsigned long long)ref); });
-      else r.ok("fnv1a64:equals-recurrence");
+      if (got != ref || got_e != ref) r.fail("fnv1a64:wrong-value", [&] { return vf::fmt("fnv1a64 of %zu bytes (%s fill) = %016llX (explicit FNV1A64_START: %016llX), recurrence gives %016llX", len, pat_name[pat], (unsigned long long)got, (unsigned long long)got_e, (unsigned long long)ref); });
+      else if (got_s != ref || got_se != ref) r.fail("fnv1a64:string-overload", [&] { return vf::fmt("fnv1a64(std::string of %zu bytes, %s fill) = %016llX (explicit FNV1A64_START: %016llX), recurrence gives %016llX", len, pat_name[pat], (unsigned long long)got_s, (unsigned long long)got_se, (unsigned long long)ref); });
+      else r.ok("fnv1a64:equals-recurrence(ptr, string; default and explicit start)");
       break;
     }
   }
 }
 
-void run_lengths(vf::Run& r, const std::vector<size_t>& lens) {
+void run_lengths(vf::Run& r, const std::vector<size_t>& lens, const std::vector<int>& pats = {P_ZERO, P_FF, P_COUNTER, P_LCG, P_HIGH, P_ASCII}) {
   Out out;
   out.open(r);
   for (size_t len : lens)
-    for (int pat = 0; pat < NPAT; pat++)
+    for (int pat : pats)
       for (int fn = 0; fn < NFN; fn++) {
         if (!r.take()) continue;
         check_one(r, out, fn, len, pat);
       }
 }
 
-// chaining at every split point of one input
+// chaining at every split point of one input: every combination of overloads for (prefix call, suffix call)
 void run_chain(vf::Run& r, const std::vector<size_t>& lens) {
   for (size_t len : lens)
     for (int pat = 0; pat < NPAT; pat++)
@@ -251,31 +158,26 @@ void run_chain(vf::Run& r, const std::vector<size_t>& lens) {
           r.note(std::string(fn_name[fn]) + "-chain");
           if (r.wants_desc()) r.desc(vf::fmt("%s chained over %zu + %zu bytes (%s fill)", fn_name[fn], k, len - k, pat_name[pat]));
           r.nontriv();
-          if (fn == F_CRC32) {
-            uint32_t ref = ref_crc32(whole.p, len);
-            uint32_t refc = ref_crc32(b.p, len - k, ref_crc32(a.p, k));  // zlib's own chaining agrees with its one-shot value
-            if (refc != ref) { fprintf(stderr, "C10: zlib chaining disagrees with itself\n"); _exit(3); }
-            r.xchecked++;
-            uint32_t got = phosg::crc32(b.p, len - k, phosg::crc32(a.p, k));
-            if (got != ref) r.fail("crc32:chain", [&] { return vf::fmt("crc32(b, %zu, crc32(a, %zu)) = %08X but crc32 of the %zu-byte concatenation (%s fill) is %08X (zlib)", len - k, k, got, len, pat_name[pat], ref); });
-            else r.ok("crc32:chain-equals-whole");
-          } else if (fn == F_FNV32) {
-            uint32_t ref = ref_fnv32(whole.p, len);
-            uint32_t got = phosg::fnv1a32(b.p, len - k, phosg::fnv1a32(a.p, k));
-            std::string sa(reinterpret_cast<const char*>(a.p), k), sb(reinterpret_cast<const char*>(b.p), len - k);
-            uint32_t got_s = phosg::fnv1a32(sb, phosg::fnv1a32(sa));
-            if (got == ref && got_s != ref) r.fail("fnv1a32:chain-string-overload", [&] { return vf::fmt("fnv1a32(std::string b (%zu bytes), fnv1a32(std::string a (%zu bytes))) = %08X but the concatenation (%s fill) hashes to %08X", len - k, k, got_s, pat_name[pat], ref); });
-            else if (got != ref) r.fail("fnv1a32:chain", [&] { return vf::fmt("fnv1a32(b, %zu, fnv1a32(a, %zu)) = %08X but the %zu-byte concatenation (%s fill) hashes to %08X", len - k, k, got, len, pat_name[pat], ref); });
-            else r.ok("fnv1a32:chain-equals-whole");
-          } else {
-            uint64_t ref = ref_fnv64(whole.p, len);
-            uint64_t got = phosg::fnv1a64(b.p, len - k, phosg::fnv1a64(a.p, k));
-            std::string sa(reinterpret_cast<const char*>(a.p), k), sb(reinterpret_cast<const char*>(b.p), len - k);
-            uint64_t got_s = phosg::fnv1a64(sb, phosg::fnv1a64(sa));
-            if (got == ref && got_s != ref) r.fail("fnv1a64:chain-string-overload", [&] { return vf::fmt("fnv1a64(std::string b (%zu bytes), fnv1a64(std::string a (%zu bytes))) = %016llX but the concatenation (%s fill) hashes to %016llX", len - k, k, (unsigned long long)got_s, pat_name[pat], (unsigned long long)ref); });
-            else if (got != ref) r.fail("fnv1a64:chain", [&] { return vf::fmt("fnv1a64(b, %zu, fnv1a64(a, %zu)) = %016llX but the %zu-byte concatenation (%s fill) hashes to %016llX", len - k, k, (unsigned long long)got, len, pat_name[pat], (unsigned long long)ref); });
-            else r.ok("fnv1a64:chain-equals-whole");
+          const uint64_t ref = ref_u_seeded(fn, whole.p, len, start_of(fn));
+          if (ref_u_seeded(fn, b.p, len - k, ref_u_seeded(fn, a.p, k, start_of(fn))) != ref) {  // the reference chains with itself
+            fprintf(stderr, "C10: reference chaining disagrees with itself\n");
+            _exit(3);
           }
+          if (fn == F_CRC32) r.xchecked++;
+          bool good = true;
+          r.poison_errno();
+          for (int ova = 0; ova < n_ov(fn); ova++)
+            for (int ovb = 0; ovb < n_ov(fn); ovb++) {
+              uint64_t mid = call_u(fn, ova, a.p, k);
+              uint64_t got = call_u_seeded(fn, ovb, b.p, len - k, mid);
+              if (got == ref) continue;
+              good = false;
+              r.fail(std::string(fn_name[fn]) + (ova == OV_PTR && ovb == OV_PTR ? ":chain" : ":chain-string-overload"), [&] {
+                return vf::fmt("%s(b %s of %zu bytes, seed = %s(a %s of %zu bytes) = %s) = %s but the %zu-byte concatenation (%s fill) hashes to %s", fn_name[fn], ov_name[ovb], len - k,
+                    fn_name[fn], ov_name[ova], k, show_u(fn, mid).c_str(), show_u(fn, got).c_str(), len, pat_name[pat], show_u(fn, ref).c_str());
+              });
+            }
+          if (good) r.ok(std::string(fn_name[fn]) + ":chain-equals-whole(every overload combination)");
         }
 }
 
@@ -286,13 +188,23 @@ VF_SECTION(lengths, 16, 16, 120) {
   size_t top = r.thorough() ? 4096 : 300;
   for (size_t n = 0; n <= top; n++) lens.push_back(n);
   run_lengths(r, lens);
-  r.bound = vf::fmt("6 functions x every length 0..%zu x 4 fill patterns (00, FF, counter, LCG); digests via state words, bin(), hex(), std::string overload", top);
+  r.bound = vf::fmt("6 functions x every length 0..%zu x 6 fill patterns (00, FF, counter, LCG, all-high-bit, ASCII); digests via state words, bin(), hex() of the (ptr,size) and std::string constructors, implicit conversion, copy, re-rendering; fnv with default and explicit start", top);
 }
 
 VF_SECTION(boundaries, 16, 16, 180) {
   std::vector<size_t> lens = {511, 512, 513, 1023, 1024, 1025, 4095, 4096, 4097, 65535, 65536, 65537, (1u << 20) - 1, 1u << 20, (1u << 20) + 1};
   run_lengths(r, lens);
-  r.bound = "6 functions x block-boundary sizes {511..513, 1023..1025, 4095..4097, 65535..65537, 2^20-1..2^20+1} x 4 fill patterns";
+  r.bound = "6 functions x block-boundary sizes {511..513, 1023..1025, 4095..4097, 65535..65537, 2^20-1..2^20+1} x 6 fill patterns";
+}
+
+// 16 MiB inputs around the padding cases (every overload; content with high-bit bytes)
+VF_SECTION(big16m, 16, 16, 600) {
+  const size_t M = size_t(1) << 24;
+  std::vector<size_t> lens = {M + 55, M + 56, M + 63, M + 64};
+  if (r.thorough()) lens.insert(lens.end(), {M - 1, M, M + 1, M + 119, M + 120});
+  run_lengths(r, lens, {P_HIGH, P_LCG});
+  r.bound = r.thorough() ? "6 functions x sizes 2^24 + {-1, 0, 1, 55, 56, 63, 64, 119, 120} x 2 fill patterns (all-high-bit, LCG), every overload as in lengths"
+                         : "6 functions x sizes 2^24 + {55, 56, 63, 64} x 2 fill patterns (all-high-bit, LCG), every overload as in lengths";
 }
 
 VF_SECTION(chain, 16, 16, 120) {
@@ -300,8 +212,8 @@ VF_SECTION(chain, 16, 16, 120) {
   for (size_t n = 0; n <= (r.thorough() ? 300u : 96u); n++) lens.push_back(n);
   if (r.thorough()) lens.push_back(1025);
   run_chain(r, lens);
-  r.bound = r.thorough() ? "crc32, fnv1a32, fnv1a64 (pointer and std::string overloads): every split point of every input of length 0..300 and 1025 x 4 fill patterns"
-                         : "crc32, fnv1a32, fnv1a64 (pointer and std::string overloads): every split point of every input of length 0..96 x 4 fill patterns";
+  r.bound = r.thorough() ? "crc32, fnv1a32, fnv1a64 (pointer and std::string overloads): every split point of every input of length 0..300 and 1025 x 6 fill patterns, all overload combinations (prefix call, suffix call)"
+                         : "crc32, fnv1a32, fnv1a64 (pointer and std::string overloads): every split point of every input of length 0..96 x 6 fill patterns, all overload combinations (prefix call, suffix call)";
 }
 
 VF_MAIN()
